@@ -1,7 +1,817 @@
 package hostile
 
-func childMode() bool { return false }
+import (
+	"bufio"
+	"bytes"
+	"encoding/base64"
+	"encoding/json"
+	"fmt"
+	"io"
+	"math/rand/v2"
+	"net"
+	"os"
+	"regexp"
+	"runtime"
+	"strings"
+	"sync"
+	"sync/atomic"
+	"time"
 
-func (r *runner) scenarios() {}
+	"github.com/pion/rtp"
 
-func (r *runner) replayScenario(b []byte) {}
+	"github.com/bluenviron/gortsplib/v5/pkg/base"
+	"github.com/bluenviron/gortsplib/v5/pkg/conn"
+	"github.com/bluenviron/gortsplib/v5/pkg/headers"
+)
+
+// A Scenario is the property-oracle unit: one server with a published stream that is being
+// written to, a well-behaved client that keeps playing, and 1…4 hostile peers running at the same
+// time.  Everything in it is replayable data.
+type Scenario struct {
+	Name    string        `json:"name"` // starts with "scenario"
+	Cfg     Cfg           `json:"cfg"`
+	GoodUDP bool          `json:"good_udp"`
+	Peers   []HostilePlan `json:"peers"`
+}
+
+// HostilePlan is what one hostile peer does.
+type HostilePlan struct {
+	Label   string   `json:"label"`
+	Raw     bool     `json:"raw,omitempty"`      // plain TCP even when the server is rtsps
+	B64     bool     `json:"b64,omitempty"`      // HTTP tunnel: a GET and a POST connection; chunks go base64-encoded into the POST
+	Chunks  [][]byte `json:"chunks"`             // {{SID}} = last session id seen on this peer, {{GP}} / {{GP1}} = the good client's UDP ports
+	Drain   bool     `json:"drain"`              // read what the server sends
+	Silent  bool     `json:"silent"`             // after the last chunk stay connected and silent (else close)
+	PauseMs int      `json:"pause_ms,omitempty"` // pause between chunks
+}
+
+// ScenarioResult is what a child process reports for one scenario.
+type ScenarioResult struct {
+	Name       string            `json:"name"`
+	Violations []ScenarioFailure `json:"violations,omitempty"`
+	Stats      map[string]int    `json:"stats,omitempty"`
+}
+
+type ScenarioFailure struct {
+	Clause string `json:"clause"`
+	Key    string `json:"key"`
+	Detail string `json:"detail"`
+}
+
+// ---- the published stream ----------------------------------------------------------------
+
+type publisher struct {
+	ts   *testServer
+	stop chan struct{}
+	done chan struct{}
+	sent atomic.Int64
+}
+
+func startPublisher(ts *testServer) *publisher {
+	p := &publisher{ts: ts, stop: make(chan struct{}), done: make(chan struct{})}
+	go func() {
+		defer close(p.done)
+		seq := uint16(0)
+		tk := time.NewTicker(4 * time.Millisecond)
+		defer tk.Stop()
+		for {
+			select {
+			case <-p.stop:
+				return
+			case <-tk.C:
+			}
+			seq++
+			ts.stream.WritePacketRTP(ts.stream.Desc.Medias[0], &rtp.Packet{
+				Header:  rtp.Header{Version: 2, PayloadType: 96, SequenceNumber: seq, Timestamp: uint32(seq) * 360},
+				Payload: []byte{0x41, 1, 2, 3, 4},
+			})
+			ts.stream.WritePacketRTP(ts.stream.Desc.Medias[1], &rtp.Packet{
+				Header:  rtp.Header{Version: 2, PayloadType: 0, SequenceNumber: seq, Timestamp: uint32(seq) * 32},
+				Payload: []byte{1, 2, 3, 4},
+			})
+			p.sent.Add(1)
+		}
+	}()
+	return p
+}
+
+func (p *publisher) close() {
+	close(p.stop)
+	<-p.done
+}
+
+// ---- the well-behaved client -------------------------------------------------------------
+
+type goodClient struct {
+	ts      *testServer
+	udp     bool
+	nc      net.Conn
+	rd      *conn.Conn
+	wmu     sync.Mutex
+	sess    string
+	cseq    int
+	rtpc    [2]*net.UDPConn // media 0: rtp, rtcp
+	rtpc1   [2]*net.UDPConn // media 1
+	pkts    atomic.Int64
+	seqErr  atomic.Int64
+	ka200   atomic.Int64
+	kaBad   atomic.Int64
+	readErr atomic.Value
+	stop    chan struct{}
+	wg      sync.WaitGroup
+	ports   [2]int
+}
+
+func udpPair() (*net.UDPConn, *net.UDPConn, int, error) {
+	for i := 0; i < 200; i++ {
+		p := 40000 + rand.IntN(10000)*2
+		a, err := net.ListenUDP("udp", &net.UDPAddr{IP: net.IPv4(127, 0, 0, 1), Port: p})
+		if err != nil {
+			continue
+		}
+		b, err := net.ListenUDP("udp", &net.UDPAddr{IP: net.IPv4(127, 0, 0, 1), Port: p + 1})
+		if err != nil {
+			a.Close()
+			continue
+		}
+		return a, b, p, nil
+	}
+	return nil, nil, 0, fmt.Errorf("no UDP port pair")
+}
+
+func (g *goodClient) request(method base.Method, u string, h base.Header, wantSession bool) (*base.Response, error) {
+	g.cseq++
+	if h == nil {
+		h = base.Header{}
+	}
+	h["CSeq"] = base.HeaderValue{itoa(g.cseq)}
+	if wantSession && g.sess != "" {
+		h["Session"] = base.HeaderValue{g.sess}
+	}
+	ur, err := base.ParseURL(u)
+	if err != nil {
+		return nil, err
+	}
+	req := base.Request{Method: method, URL: ur, Header: h}
+	buf, _ := req.Marshal()
+	g.wmu.Lock()
+	g.nc.SetWriteDeadline(time.Now().Add(3 * time.Second))
+	_, err = g.nc.Write(buf)
+	g.wmu.Unlock()
+	if err != nil {
+		return nil, err
+	}
+	g.nc.SetReadDeadline(time.Now().Add(4 * time.Second))
+	for {
+		what, err := g.rd.Read()
+		if err != nil {
+			return nil, err
+		}
+		if res, ok := what.(*base.Response); ok {
+			return res, nil
+		}
+	}
+}
+
+// startGood performs DESCRIBE / SETUP×2 / PLAY and starts the reading and keep-alive routines.
+// reusePorts (UDP only): bind these client ports instead of fresh ones.
+func startGood(ts *testServer, udp bool, reusePorts int) (*goodClient, error) {
+	g := &goodClient{ts: ts, udp: udp, stop: make(chan struct{})}
+	nc, err := ts.dial()
+	if err != nil {
+		return nil, err
+	}
+	g.nc = nc
+	g.rd = conn.NewConn(bufio.NewReaderSize(nc, 256*1024), io.Discard)
+	u := baseURL(ts.cfg, streamPath)
+	res, err := g.request(base.Describe, u, nil, false)
+	if err != nil || res.StatusCode != 200 {
+		nc.Close()
+		return nil, fmt.Errorf("DESCRIBE: %v %v", res, err)
+	}
+	for i := 0; i < 2; i++ {
+		var tr string
+		if udp {
+			var a, b *net.UDPConn
+			var p int
+			if reusePorts != 0 {
+				p = reusePorts + 2*i
+				a, err = net.ListenUDP("udp", &net.UDPAddr{IP: net.IPv4(127, 0, 0, 1), Port: p})
+				if err == nil {
+					b, err = net.ListenUDP("udp", &net.UDPAddr{IP: net.IPv4(127, 0, 0, 1), Port: p + 1})
+				}
+			} else {
+				a, b, p, err = udpPair()
+			}
+			if err != nil {
+				g.closeSockets()
+				return nil, err
+			}
+			if i == 0 {
+				g.rtpc = [2]*net.UDPConn{a, b}
+				g.ports[0] = p
+			} else {
+				g.rtpc1 = [2]*net.UDPConn{a, b}
+				g.ports[1] = p
+			}
+			tr = fmt.Sprintf("RTP/AVP;unicast;client_port=%d-%d", p, p+1)
+		} else {
+			tr = fmt.Sprintf("RTP/AVP/TCP;unicast;interleaved=%d-%d", 2*i, 2*i+1)
+		}
+		res, err = g.request(base.Setup, fmt.Sprintf("%s/trackID=%d", u, i), base.Header{"Transport": base.HeaderValue{tr}}, true)
+		if err != nil || res.StatusCode != 200 {
+			g.closeSockets()
+			return nil, fmt.Errorf("SETUP %d: %v %v", i, res, err)
+		}
+		var sx headers.Session
+		if err = sx.Unmarshal(res.Header["Session"]); err == nil {
+			g.sess = sx.Session
+		}
+	}
+	res, err = g.request(base.Play, u, nil, true)
+	if err != nil || res.StatusCode != 200 {
+		g.closeSockets()
+		return nil, fmt.Errorf("PLAY: %v %v", res, err)
+	}
+	// reader of the control connection: interleaved frames (TCP) and keep-alive responses
+	g.wg.Add(1)
+	go func() {
+		defer g.wg.Done()
+		var last [4]int
+		for i := range last {
+			last[i] = -1
+		}
+		for {
+			g.nc.SetReadDeadline(time.Now().Add(30 * time.Second))
+			what, err := g.rd.Read()
+			if err != nil {
+				select {
+				case <-g.stop:
+				default:
+					g.readErr.Store(err.Error())
+				}
+				return
+			}
+			switch w := what.(type) {
+			case *base.InterleavedFrame:
+				if w.Channel == 0 || w.Channel == 2 {
+					g.pkts.Add(1)
+					if len(w.Payload) >= 4 {
+						seq := int(w.Payload[2])<<8 | int(w.Payload[3])
+						if last[w.Channel] >= 0 && seq != (last[w.Channel]+1)&0xffff {
+							g.seqErr.Add(1)
+						}
+						last[w.Channel] = seq
+					}
+				}
+			case *base.Response:
+				if w.StatusCode == 200 {
+					g.ka200.Add(1)
+				} else {
+					g.kaBad.Add(1)
+				}
+			}
+		}
+	}()
+	if udp {
+		for _, c := range []*net.UDPConn{g.rtpc[0], g.rtpc1[0]} {
+			g.wg.Add(1)
+			go func(c *net.UDPConn) {
+				defer g.wg.Done()
+				buf := make([]byte, 2048)
+				for {
+					_, _, err := c.ReadFromUDP(buf)
+					if err != nil {
+						return
+					}
+					g.pkts.Add(1)
+				}
+			}(c)
+		}
+	}
+	// keep-alives
+	g.wg.Add(1)
+	go func() {
+		defer g.wg.Done()
+		tk := time.NewTicker(200 * time.Millisecond)
+		defer tk.Stop()
+		for {
+			select {
+			case <-g.stop:
+				return
+			case <-tk.C:
+			}
+			g.cseq++
+			req := fmt.Sprintf("OPTIONS %s RTSP/1.0\r\nCSeq: %d\r\nSession: %s\r\n\r\n", u, g.cseq, g.sess)
+			g.wmu.Lock()
+			g.nc.SetWriteDeadline(time.Now().Add(3 * time.Second))
+			g.nc.Write([]byte(req))
+			g.wmu.Unlock()
+		}
+	}()
+	return g, nil
+}
+
+func (g *goodClient) closeSockets() {
+	g.nc.Close()
+	for _, c := range []*net.UDPConn{g.rtpc[0], g.rtpc[1], g.rtpc1[0], g.rtpc1[1]} {
+		if c != nil {
+			c.Close()
+		}
+	}
+}
+
+// teardown ends the session properly and closes the sockets.
+func (g *goodClient) teardown() {
+	close(g.stop)
+	req := fmt.Sprintf("TEARDOWN %s RTSP/1.0\r\nCSeq: %d\r\nSession: %s\r\n\r\n", baseURL(g.ts.cfg, streamPath), 100000, g.sess)
+	g.wmu.Lock()
+	g.nc.SetWriteDeadline(time.Now().Add(2 * time.Second))
+	g.nc.Write([]byte(req))
+	g.wmu.Unlock()
+	time.Sleep(30 * time.Millisecond)
+	g.closeSockets()
+	g.wg.Wait()
+}
+
+// ---- hostile peers -----------------------------------------------------------------------
+
+var sessRe = regexp.MustCompile(`(?i)Session: ([0-9a-f]{32})`)
+
+type peerOutcome struct {
+	label    string
+	closedBy string // server | self | timeout
+	waited   time.Duration
+	bytesIn  int
+}
+
+func runHostile(ts *testServer, plan *HostilePlan, goodPorts [2]int, limit time.Duration) peerOutcome {
+	out := peerOutcome{label: plan.Label}
+	var nc net.Conn
+	var err error
+	if plan.Raw || !ts.cfg.TLS {
+		nc, err = net.DialTimeout("tcp", ts.addr, 2*time.Second)
+	} else {
+		nc, err = ts.dial()
+	}
+	if err != nil {
+		out.closedBy = "dial:" + err.Error()
+		return out
+	}
+	defer nc.Close()
+	wc := nc // where chunks are written
+	var post net.Conn
+	if plan.B64 {
+		cookie := fmt.Sprintf("c%d", rand.Int64())
+		nc.Write(httpGetReq(cookie))
+		nc.SetReadDeadline(time.Now().Add(2 * time.Second))
+		buf := make([]byte, 4096)
+		nc.Read(buf)
+		time.Sleep(20 * time.Millisecond)
+		if plan.Raw || !ts.cfg.TLS {
+			post, err = net.DialTimeout("tcp", ts.addr, 2*time.Second)
+		} else {
+			post, err = ts.dial()
+		}
+		if err == nil {
+			defer post.Close()
+			post.Write(httpPostReq(cookie))
+			wc = post
+		}
+	}
+	sid := "00000000000000000000000000000000"
+	var inbuf []byte
+	drain := func(d time.Duration) bool {
+		// read what arrives within d; true when the server closed the connection
+		deadline := time.Now().Add(d)
+		buf := make([]byte, 64*1024)
+		for {
+			nc.SetReadDeadline(deadline)
+			n, err := nc.Read(buf)
+			out.bytesIn += n
+			if n > 0 {
+				inbuf = append(inbuf, buf[:n]...)
+				if len(inbuf) > 8192 {
+					inbuf = inbuf[len(inbuf)-4096:]
+				}
+				if m := sessRe.FindAllSubmatch(inbuf, -1); len(m) > 0 {
+					sid = string(m[len(m)-1][1])
+				}
+			}
+			if err != nil {
+				if ne, ok := err.(net.Error); ok && ne.Timeout() {
+					return false
+				}
+				return true
+			}
+		}
+	}
+	for _, ch := range plan.Chunks {
+		b := bytes.ReplaceAll(ch, []byte("{{SID}}"), []byte(sid))
+		b = bytes.ReplaceAll(b, []byte("{{GP}}"), []byte(itoa(goodPorts[0])))
+		b = bytes.ReplaceAll(b, []byte("{{GP1}}"), []byte(itoa(goodPorts[0]+1)))
+		if plan.B64 {
+			b = []byte(base64.StdEncoding.EncodeToString(b))
+		}
+		wc.SetWriteDeadline(time.Now().Add(3 * time.Second))
+		if _, err := wc.Write(b); err != nil {
+			break
+		}
+		if plan.Drain {
+			if drain(15 * time.Millisecond) {
+				out.closedBy = "server"
+				return out
+			}
+		}
+		if plan.PauseMs > 0 {
+			time.Sleep(time.Duration(plan.PauseMs) * time.Millisecond)
+		}
+	}
+	if !plan.Silent {
+		out.closedBy = "self"
+		return out
+	}
+	t0 := time.Now()
+	if plan.Drain {
+		if drain(limit) {
+			out.closedBy = "server"
+		} else {
+			out.closedBy = "timeout"
+		}
+	} else {
+		// a peer that never reads: the end of the connection is seen through the callbacks
+		out.closedBy = "unread"
+		time.Sleep(limit)
+	}
+	out.waited = time.Since(t0)
+	return out
+}
+
+// ---- goroutine accounting ------------------------------------------------------------------
+
+// libGoroutines counts the goroutines that run gortsplib code and are not the harness' own.
+func libGoroutines() (int, string) {
+	buf := make([]byte, 4<<20)
+	n := runtime.Stack(buf, true)
+	var keep []string
+	for _, g := range strings.Split(string(buf[:n]), "\n\n") {
+		if strings.Contains(g, "gortsplib/v5") && !strings.Contains(g, "verifharness/dom/hostile") {
+			keep = append(keep, g)
+		}
+	}
+	return len(keep), strings.Join(keep, "\n\n")
+}
+
+func waitLibGoroutines(want int, d time.Duration) (int, string) {
+	deadline := time.Now().Add(d)
+	for {
+		n, dump := libGoroutines()
+		if n <= want || time.Now().After(deadline) {
+			return n, dump
+		}
+		time.Sleep(20 * time.Millisecond)
+	}
+}
+
+// ---- running one scenario --------------------------------------------------------------------
+
+func runScenario(sc *Scenario, accountGoroutines bool) (res ScenarioResult) {
+	res.Name = sc.Name
+	res.Stats = map[string]int{}
+	fail := func(clause, key, detail string) {
+		for _, v := range res.Violations {
+			if v.Key == key {
+				return
+			}
+		}
+		res.Violations = append(res.Violations, ScenarioFailure{clause, key, detail})
+	}
+	const idle = 2 * time.Second
+	const read = 500 * time.Millisecond
+	ts, err := startServer(sc.Cfg, idle, read, 1)
+	if err != nil {
+		res.Stats["server-start-failed"] = 1
+		return
+	}
+	serverClosed := false
+	defer func() {
+		if !serverClosed {
+			ts.close()
+		}
+	}()
+	base0, _ := libGoroutines()
+	pub := startPublisher(ts)
+	pubStopped := false
+	defer func() {
+		if !pubStopped {
+			pub.close()
+		}
+	}()
+
+	good, err := startGood(ts, sc.GoodUDP && sc.Cfg.UDP && !sc.Cfg.TLS, 0)
+	if err != nil {
+		fail("the server keeps serving other connections correctly", "good-client-cannot-start", err.Error())
+		return
+	}
+	goodDown := false
+	defer func() {
+		if !goodDown {
+			good.teardown()
+		}
+	}()
+	// the good client receives
+	t0 := time.Now()
+	for good.pkts.Load() < 10 && time.Since(t0) < 3*time.Second {
+		time.Sleep(5 * time.Millisecond)
+	}
+	if good.pkts.Load() < 10 {
+		fail("the server keeps serving other connections correctly", "good-client-no-packets", "the well-behaved client received nothing before any hostile peer connected")
+		return
+	}
+	lGood := ts.ledger()
+	ts.mu.Lock()
+	connsBefore, sessBefore := len(ts.conns), len(ts.sessions)
+	ts.mu.Unlock()
+
+	// liveness monitor of the good client
+	monStop := make(chan struct{})
+	var monWG sync.WaitGroup
+	var maxGap atomic.Int64
+	monWG.Add(1)
+	go func() {
+		defer monWG.Done()
+		last := good.pkts.Load()
+		lastT := time.Now()
+		for {
+			select {
+			case <-monStop:
+				return
+			case <-time.After(20 * time.Millisecond):
+			}
+			if n := good.pkts.Load(); n != last {
+				last, lastT = n, time.Now()
+			} else if g := time.Since(lastT).Milliseconds(); g > maxGap.Load() {
+				maxGap.Store(g)
+			}
+		}
+	}()
+
+	// hostile peers, all at once
+	limit := idle + read + 3*time.Second
+	for _, p := range sc.Peers {
+		if p.B64 || hasHTTPGet(p.Chunks) {
+			limit = idle + read + 8*time.Second // a GET channel waits 5 s for its POST
+		}
+	}
+	outs := make([]peerOutcome, len(sc.Peers))
+	var wg sync.WaitGroup
+	for i := range sc.Peers {
+		wg.Add(1)
+		go func(i int) {
+			defer wg.Done()
+			outs[i] = runHostile(ts, &sc.Peers[i], good.ports, limit)
+		}(i)
+	}
+	wg.Wait()
+	for i, o := range outs {
+		res.Stats["peer-closed-by-"+strings.SplitN(o.closedBy, ":", 2)[0]]++
+		if o.closedBy == "timeout" {
+			fail("the server answers or closes the connection within its timeouts", "hostile-not-closed",
+				fmt.Sprintf("peer %d (%s) stayed silent for %v and was neither answered nor closed (IdleTimeout %v, ReadTimeout %v)", i, o.label, o.waited.Round(time.Millisecond), idle, read))
+		}
+	}
+	// every connection and session the hostile peers opened must end: OnConnClose / OnSessionClose
+	ok := ts.waitFor(limit, func() bool {
+		for i := connsBefore; i < len(ts.connClosed); i++ {
+			if !ts.connClosed[i] {
+				return false
+			}
+		}
+		for i := sessBefore; i < len(ts.sessClosed); i++ {
+			if !ts.sessClosed[i] {
+				return false
+			}
+		}
+		return true
+	})
+	ts.mu.Lock()
+	res.Stats["hostile-conns"] = len(ts.conns) - connsBefore
+	res.Stats["hostile-sessions"] = len(ts.sessions) - sessBefore
+	var open []string
+	for i := connsBefore; i < len(ts.connClosed); i++ {
+		if !ts.connClosed[i] {
+			open = append(open, fmt.Sprintf("conn %d", i))
+		}
+	}
+	for i := sessBefore; i < len(ts.sessClosed); i++ {
+		if !ts.sessClosed[i] {
+			open = append(open, fmt.Sprintf("session %d (state %v)", i, ts.sessions[i].State()))
+		}
+	}
+	panics := append([]string{}, ts.panics...)
+	ts.mu.Unlock()
+	if !ok {
+		fail("once the hostile connection has ended, everything tied to it is released", "hostile-session-leak",
+			fmt.Sprintf("%v after the hostile peers ended: no close callback for %s", limit, strings.Join(open, ", ")))
+	}
+	for _, p := range panics {
+		fail("the server process does not panic", "hostile-panic", p)
+	}
+	close(monStop)
+	monWG.Wait()
+
+	// the good client was served all along
+	if e := good.readErr.Load(); e != nil {
+		fail("the server keeps serving other connections correctly", "good-client-disconnected", "control connection of the well-behaved client ended: "+e.(string))
+	}
+	if g := maxGap.Load(); g > 2500 {
+		fail("the server keeps serving other connections correctly", "good-client-starved", fmt.Sprintf("no packet reached the well-behaved client for %d ms", g))
+	}
+	res.Stats["good-max-gap-ms"] = int(maxGap.Load())
+	if !good.udp && good.seqErr.Load() != 0 {
+		fail("the server keeps serving other connections correctly", "good-client-gap", fmt.Sprintf("%d sequence number gaps on the TCP stream of the well-behaved client", good.seqErr.Load()))
+	}
+	if good.kaBad.Load() != 0 {
+		fail("the server keeps serving other connections correctly", "good-client-keepalive", fmt.Sprintf("%d keep-alives of the well-behaved client were not answered 200", good.kaBad.Load()))
+	}
+	n0 := good.pkts.Load()
+	time.Sleep(150 * time.Millisecond)
+	if good.pkts.Load() == n0 && good.readErr.Load() == nil {
+		fail("the server keeps serving other connections correctly", "good-client-starved", "no packet reached the well-behaved client after the hostile peers ended")
+	}
+	// the tables hold exactly what the good client holds
+	var l ledger
+	for i := 0; i < 200; i++ {
+		if l = ts.ledger(); l == lGood {
+			break
+		}
+		time.Sleep(5 * time.Millisecond)
+	}
+	if l != lGood && ok {
+		fail("once the hostile connection has ended, sessions, UDP registrations and reader slots are released", "hostile-ledger-not-empty",
+			fmt.Sprintf("tables with only the well-behaved client: %+v, after the hostile peers: %+v", lGood, l))
+	}
+
+	// a fresh well-behaved connection (UDP: on client ports a hostile peer used)
+	reuse := 0
+	if good.udp {
+		reuse = hostilePorts(sc)
+	}
+	fresh, err := startGood(ts, good.udp, reuse)
+	if err != nil {
+		fail("a fresh well-behaved connection completes DESCRIBE / SETUP / PLAY", "fresh-client-refused", err.Error())
+	} else {
+		t1 := time.Now()
+		for fresh.pkts.Load() < 5 && time.Since(t1) < 2*time.Second {
+			time.Sleep(5 * time.Millisecond)
+		}
+		if fresh.pkts.Load() < 5 {
+			fail("a fresh well-behaved connection completes DESCRIBE / SETUP / PLAY", "fresh-client-no-packets", "the fresh client was set up but received no packets")
+		}
+		fresh.teardown()
+	}
+	good.teardown()
+	goodDown = true
+	okAll := ts.waitFor(limit, func() bool {
+		for _, c := range ts.connClosed {
+			if !c {
+				return false
+			}
+		}
+		for _, c := range ts.sessClosed {
+			if !c {
+				return false
+			}
+		}
+		return true
+	})
+	if !okAll {
+		fail("once a connection has ended, everything tied to it is released", "callbacks-unbalanced", "close callbacks missing after all clients ended")
+	}
+	for i := 0; i < 200; i++ {
+		if l = ts.ledger(); l.zero() {
+			break
+		}
+		time.Sleep(5 * time.Millisecond)
+	}
+	if !l.zero() {
+		fail("once the connections have ended, sessions, UDP registrations and reader slots are released", "ledger-not-empty-at-end", fmt.Sprintf("%+v", l))
+	}
+	pub.close()
+	pubStopped = true
+	if accountGoroutines {
+		if n, dump := waitLibGoroutines(base0, 3*time.Second); n > base0 {
+			fail("once the hostile connection has ended, its goroutines are released", "goroutine-leak",
+				fmt.Sprintf("%d library goroutines before any connection, %d after all connections ended:\n%s", base0, n, truncate(dump, 6000)))
+		}
+	}
+	// the server can be closed
+	closed := make(chan struct{})
+	go func() { ts.close(); close(closed) }()
+	select {
+	case <-closed:
+	case <-time.After(8 * time.Second):
+		fail("the server does not deadlock", "server-close-hangs", "Server.Close did not return within 8 s")
+		return
+	}
+	serverClosed = true
+	if accountGoroutines {
+		if n, dump := waitLibGoroutines(0, 3*time.Second); n > 0 {
+			fail("goroutines are released", "goroutine-leak-after-close", fmt.Sprintf("%d library goroutines after Server.Close:\n%s", n, truncate(dump, 6000)))
+		}
+	}
+	return
+}
+
+func truncate(s string, n int) string {
+	if len(s) > n {
+		return s[:n] + "…"
+	}
+	return s
+}
+
+func hasHTTPGet(chunks [][]byte) bool {
+	return len(chunks) > 0 && bytes.HasPrefix(chunks[0], []byte("GET "))
+}
+
+var clientPortRe = regexp.MustCompile(`client_port=(\d+)-`)
+
+// hostilePorts: an even client port used by some hostile peer (0 if none usable).
+func hostilePorts(sc *Scenario) int {
+	for _, p := range sc.Peers {
+		for _, ch := range p.Chunks {
+			if m := clientPortRe.FindSubmatch(ch); m != nil {
+				var n int
+				fmt.Sscanf(string(m[1]), "%d", &n)
+				if n >= 1024 && n < 65000 && n%2 == 0 {
+					return n
+				}
+			}
+		}
+	}
+	return 0
+}
+
+// ---- child processes -------------------------------------------------------------------------
+
+type childJob struct {
+	Scenarios []Scenario `json:"scenarios"`
+}
+
+type childOut struct {
+	Results []ScenarioResult `json:"results"`
+}
+
+// childMain runs the scenarios of a job file one after the other; the index of the scenario in
+// progress is kept in <file>.progress so that the parent can attribute a crash.
+func childMain(file string) {
+	b, err := os.ReadFile(file)
+	if err != nil {
+		fmt.Fprintln(os.Stderr, err)
+		os.Exit(2)
+	}
+	var job childJob
+	if err = json.Unmarshal(b, &job); err != nil {
+		fmt.Fprintln(os.Stderr, err)
+		os.Exit(2)
+	}
+	var out childOut
+	for i := range job.Scenarios {
+		os.WriteFile(file+".progress", []byte(itoa(i)), 0o644)
+		// watchdog: a scenario that does not come back is a deadlock somewhere
+		done := make(chan struct{})
+		var r ScenarioResult
+		go func() {
+			r = runScenario(&job.Scenarios[i], true)
+			if len(r.Violations) > 0 {
+				// a failure must reproduce (the machine may be loaded): keep the keys seen twice
+				r2 := runScenario(&job.Scenarios[i], true)
+				var keep []ScenarioFailure
+				for _, v := range r2.Violations {
+					for _, w := range r.Violations {
+						if v.Key == w.Key {
+							keep = append(keep, v)
+							break
+						}
+					}
+				}
+				r2.Violations = keep
+				r2.Stats["rerun"] = 1
+				r = r2
+			}
+			close(done)
+		}()
+		select {
+		case <-done:
+		case <-time.After(180 * time.Second):
+			buf := make([]byte, 1<<20)
+			n := runtime.Stack(buf, true)
+			r = ScenarioResult{Name: job.Scenarios[i].Name, Violations: []ScenarioFailure{{
+				"the server does not deadlock", "scenario-watchdog", "scenario did not finish within 180 s\n" + truncate(string(buf[:n]), 8000)}}}
+		}
+		out.Results = append(out.Results, r)
+		ob, _ := json.Marshal(out)
+		os.WriteFile(file+".out", ob, 0o644)
+	}
+	os.WriteFile(file+".progress", []byte("done"), 0o644)
+}
